@@ -2,7 +2,7 @@
    brute-force matcher (same fuel), fuel monotonicity (inclusion), and the non-vacuity examples.  No axioms. *)
 From Coq Require Import NArith ZArith List Bool Lia ZifyBool Permutation.
 Import ListNotations.
-From CA Require Import Model.Lexer Model.Parser Model.Matcher Proofs.MatcherP.
+From CA Require Import Model.Lexer Model.Parser Model.Matcher Proofs.MatcherP Proofs.MatcherCaseP.
 Open Scope N_scope.
 
 (* the matches one candidate (ruledef index, rule index) contributes; this is literally the body of the
@@ -293,7 +293,9 @@ Definition ex_rules_text : text :=
   [35;114;117;108;101;100;101;102;123;108;100;32;123;120;125;61;62;48;120;53;53;64;120;96;56;10;
    108;100;32;97;44;123;120;125;61;62;48;120;97;97;64;120;96;56;10;
    104;97;108;116;61;62;48;120;48;48;10;125].
-Definition ex_defs : list ruledef := match parse_defs ex_rules_text with Some d => d | None => [] end.
+Definition ex_defs : list ruledef := Eval vm_compute in match parse_defs ex_rules_text with Some d => d | None => [] end.
+Example ex_defs_parsed : parse_defs ex_rules_text = Some ex_defs.
+Proof. vm_compute. reflexivity. Qed.
 (* "  Ld ;*c*; A , 5" *)
 Definition ex_instr : walker :=
   let t := [32;32;76;100;32;59;42;99;42;59;32;65;32;44;32;53] in {| tail := t; cur := 0; lim := bytes_len t |}.
@@ -317,7 +319,32 @@ Qed.
 Example all_keys_ok_nonvacuous : all_keys_ok ex_defs.
 Proof.
   intros i d j r Hd Hs Hr.
-  destruct i as [|[|i]]; try (destruct i; discriminate); cbn in Hd; try discriminate. injection Hd as <-.
-  do 3 (destruct j as [|j]; [cbn in Hr; injection Hr as <-; vm_compute; reflexivity|]).
+  unfold ex_defs in Hd. destruct i as [|i]; [|destruct i; discriminate].
+  cbn [nth_error] in Hd. injection Hd as <-. cbn [rd_rules] in Hr.
+  do 3 (destruct j as [|j]; [cbn [nth_error] in Hr; injection Hr as <-; vm_compute; reflexivity|]).
   destruct j; discriminate.
 Qed.
+
+(* C07: "#ruledef{ld {x}=>0x55@x`8" LF "ld a=>0xaa" LF "}" against "LD A": both rules match (the first one reads A as an
+   expression), only the one spelling the operand literally survives; the upper-case instruction matches lower-case rules *)
+Definition c07_rules_text : text :=
+  [35;114;117;108;101;100;101;102;123;108;100;32;123;120;125;61;62;48;120;53;53;64;120;96;56;10;
+   108;100;32;97;61;62;48;120;97;97;10;125].
+Definition c07_defs : list ruledef := Eval vm_compute in match parse_defs c07_rules_text with Some d => d | None => [] end.
+Definition c07_instr : walker := let t := [76;68;32;65] in {| tail := t; cur := 0; lim := bytes_len t |}.
+
+Example C07_literal_priority_nonvacuous :
+  parse_defs c07_rules_text = Some c07_defs /  map fst (working_brute (pred (match_fuel c07_defs (tail c07_instr))) c07_defs c07_instr)
+    = [IMatch 0 0 [AExpr (EVar 0 [[65]]) 3 4 [65]] 0; IMatch 0 1 [] 0] /  match_instr_at false c07_defs c07_instr = [IMatch 0 1 [] 3] /  match_instr_at true c07_defs c07_instr = [IMatch 0 1 [] 3].
+Proof. repeat split; vm_compute; reflexivity. Qed.
+
+Example C07_pattern_lowercase_nonvacuous :
+  lower_exacts [72;97;76;116] = [PExact 104; PGlued 97; PGlued 108; PGlued 116] /  lower_exacts [72;97;76;116] = lower_exacts [104;65;108;84].
+Proof. split; vm_compute; reflexivity. Qed.
+
+(* C07_blank_before_exact: skipping "  ;*c*; " in front of 'x' first changes nothing *)
+Example C07_blank_before_exact_nonvacuous :
+  let t := [32;32;59;42;99;42;59;32;88;49] in
+  let w := {| tail := t; cur := 0; lim := bytes_len t |} in
+  skip_ignorable 5 w <> w /\ maybe_expect_char w 120 <> None /  maybe_expect_char (skip_ignorable 5 w) 120 = maybe_expect_char w 120.
+Proof. cbv zeta. split; [vm_compute; discriminate|]. split; [vm_compute; discriminate | vm_compute; reflexivity]. Qed.
